@@ -1,17 +1,151 @@
-// Package selftest: engine conformance probes (symbolic result must equal the native result).
+// Package selftest: engine conformance probes. Every function here is executed
+// both natively and under the engine on CONCRETE inputs; the observation logs
+// must be identical (vcheck selftest, part of setup_cmd). H_pinned_* additionally
+// run the symbolic machinery on inputs pinned by an assumption and compare with the
+// concrete run inside the same path.
 package selftest
 
 import (
 	"unicode/utf8"
 
+	"github.com/php-any/origami/data"
+	"github.com/php-any/origami/lexer"
+	opw "github.com/php-any/origami/std/protowire"
+	"verif/harness/sx"
 	"verif/symx"
 )
 
-func H_decode() {
-	w := symx.String("w", 1)
-	symx.Assume(w[0] == byte(symx.Param("b0", 0)))
-	r, n := utf8.DecodeRuneInString(w)
-	symx.Observe("decoded", int(r), n)
-	r2, n2 := utf8.DecodeRuneInString(string([]byte{byte(symx.Param("b0", 0))}))
-	symx.Assert(r == r2 && n == n2, "decode-matches-concrete")
+// the repository's own lexer test inputs plus boundary cases
+var lexVectors = []string{
+	"$a = 1 + 2; echo $a;",
+	"<?php\nclass A { function f($x) { return $x; } }\n",
+	"$s = \"a{$x}b\" . 'c';",
+	"$a = <<<EOT\nline $x\nEOT;\n",
+	"// c\r\n$b = 0x1F + 1e3 - 0b11;",
+	"\\App\\Foo::bar(1, [2 => 3]);",
+	"$x->y?->z ?? 1 <=> 2 ** -3;",
+	"中文 = \"多字节\"; \xe3\x80\x80 $y",
+	"\x80\xfe $ \\\xf1",
+	"#!/usr/bin/env x\n$a",
+	"/* unterminated",
+	"\"unterminated {$",
+}
+
+func H_lex_vectors() {
+	l := lexer.NewLexer()
+	for k, src := range lexVectors {
+		for _, t := range l.Tokenize(src) {
+			symx.Observe("tok", k, int(t.Type()), t.Start(), t.End(), t.Line(), t.Pos(), []byte(t.Literal()))
+		}
+		for _, t := range l.TokenizeTemplate(src) {
+			symx.Observe("ttok", k, int(t.Type()), t.Start(), t.End(), t.Line(), []byte(t.Literal()))
+		}
+	}
+}
+
+// protowire vectors in the style of std/protowire/parser_test.go
+var pwVectors = [][]byte{
+	{}, {0x08, 0x96, 0x01}, {0x12, 0x03, 'a', 'b', 'c'}, {0x0d, 1, 2, 3, 4}, {0x09, 1, 2, 3, 4, 5, 6, 7, 8},
+	{0x0b, 0x08, 0x01, 0x0c}, {0x0b, 0x08, 0x01, 0x14}, {0x0c}, {0x08}, {0x12, 0x05, 'a'}, {0x0a, 0x02, 0x08, 0x01},
+	{0x12, 0x03, 0x01, 0x02, 0x03}, {0x12, 0x04, 1, 0, 0, 0}, {0xff, 0xff, 0xff, 0xff, 0xff, 0xff, 0xff, 0xff, 0xff, 0x7f},
+}
+
+func H_protowire_vectors() {
+	for k, d := range pwVectors {
+		for _, et := range []int32{0, 1, 5} {
+			opts := &opw.ParseOptions{MessageFields: map[int32]bool{1: true}, PackedFields: map[int32]bool{2: true}, PackedElementType: map[int32]int32{2: et}, MaxDepth: 3}
+			fs, err := opw.ParseRawFields(d, opts)
+			msg := ""
+			if err != nil {
+				msg = err.Error()
+			}
+			symx.Observe("pw", k, int(et), len(fs), msg)
+			for _, f := range fs {
+				symx.Observe("field", int(f.Number), int(f.WireType))
+			}
+		}
+	}
+}
+
+// a script exercising functions, loops, classes, arrays, exceptions, closures, string methods
+const script = `
+function fib($n) { if ($n < 2) { return $n; } return fib($n - 1) + fib($n - 2); }
+class P { public $v = 1; function add($x) { $this->v = $this->v + $x; return $this; } }
+$o = new P(); $o->add(2)->add(3); emit($o->v);
+$a = [3, 1, 2]; $a[] = 9; $b = $a; $b[0] = 7; emit($a[0]); emit($b[0]);
+for ($i = 0; $i < 4; $i++) { if ($i == 2) { continue; } emit($i * 10); }
+try { throw new Exception("x"); } catch (Exception $e) { mark(1); } finally { mark(2); }
+emit(fib(10));
+$f = function($x) use ($o) { return $x + $o->v; }; emit($f(1));
+emit("abc"->toUpperCase()); emit([1, 2, 3]->slice(1)); dump([1, [2, 3]]->concat([4]));
+emit(7 / 2); emit(7 % 3); emit(2 ** 10); emit(1 <=> 2); emit("a" . 1 . "b"); emit(-5 >> 1); emit(5 & 3 | 8 ^ 1);
+$m = ["x" => 1, "y" => 2]; foreach ($m as $k => $v) { emit($k); emit($v); }
+switch (2) { case 1: emit(1); break; case 2: emit(2); break; default: emit(3); }
+emit(match(3) { 1 => 10, 3 => 30, default => 0 });
+$i = 0; while (true) { $i++; if ($i > 3) { break; } } emit($i);
+`
+
+func H_script_vector() {
+	s := sx.Compile(script)
+	if s.Err != nil {
+		symx.Observe("parse-error", s.Err.AsString())
+		return
+	}
+	_, ctl := s.Run()
+	if ctl != nil {
+		symx.Observe("control", ctl.AsString())
+	}
+	for _, o := range sx.Log {
+		symx.Observe("obs", int(o.Kind), o.I, o.F, o.S, o.B)
+	}
+}
+
+// symbolic machinery pinned to a concrete byte must agree with the concrete run (all 256 bytes)
+func H_pinned_decode() {
+	b := symx.Byte("b")
+	c := symx.Choose("c", 256)
+	symx.Assume(b == byte(c))
+	for _, pre := range []string{"", "\xe4\xb8", "a", "\xf0\x9f"} {
+		r, n := utf8.DecodeRuneInString(pre + string([]byte{b}))
+		r2, n2 := utf8.DecodeRuneInString(pre + string([]byte{byte(c)}))
+		symx.Assert(r == r2 && n == n2, "DecodeRuneInString(symbolic pinned) == concrete")
+		s1, s2 := string(rune(b)), string(rune(byte(c)))
+		symx.Assert(s1 == s2, "string(rune(byte)) pinned == concrete")
+	}
+}
+
+func H_pinned_lex() {
+	b := symx.Byte("b")
+	c := symx.Choose("c", 256)
+	symx.Assume(b == byte(c))
+	l := lexer.NewLexer()
+	for _, pre := range []string{"", "$a ", "\"", "\\", "1", "<"} {
+		t1 := l.Tokenize(pre + string([]byte{b}) + " x")
+		t2 := l.Tokenize(pre + string([]byte{byte(c)}) + " x")
+		symx.Assert(len(t1) == len(t2), "token count pinned == concrete")
+		if len(t1) != len(t2) {
+			return
+		}
+		for k := range t1 {
+			symx.Assert(t1[k].Type() == t2[k].Type() && t1[k].Start() == t2[k].Start() && t1[k].End() == t2[k].End() && t1[k].Line() == t2[k].Line() && t1[k].Literal() == t2[k].Literal(), "token pinned == concrete")
+		}
+	}
+}
+
+func H_pinned_arith() {
+	x, y := symx.Int("x"), symx.Int("y")
+	vals := []int{0, 1, -1, 7, -9223372036854775808, 9223372036854775807, 1 << 53, -(1 << 31)}
+	cx, cy := vals[symx.Choose("cx", len(vals))], vals[symx.Choose("cy", len(vals))]
+	symx.Assume(x == cx && y == cy)
+	symx.Assert(x+y == cx+cy && x-y == cx-cy && x*y == cx*cy && x&y == cx&cy && x|y == cx|cy && x^y == cx^cy, "int ops")
+	symx.Assert((x < y) == (cx < cy) && (x <= y) == (cx <= cy) && (x == y) == (cx == cy), "int comparisons")
+	if cy != 0 {
+		symx.Assert(x/y == cx/cy && x%y == cx%cy, "int div/rem")
+	}
+	s := uint(symx.Choose("sh", 70))
+	symx.Assert(x<<s == cx<<s && x>>s == cx>>s && uint64(x)>>s == uint64(cx)>>s, "shifts incl. counts >= 64")
+	symx.Assert(float64(x) == float64(cx) && int32(x) == int32(cx) && uint8(x) == uint8(cx) && int64(float64(x)/3) == int64(float64(cx)/3), "conversions")
+	v := data.NewIntValue(x)
+	iv, _ := v.(*data.IntValue)
+	symx.Assert(iv.Value == cx, "boxed value")
 }
